@@ -16,6 +16,16 @@ Subs
               solver == harness' Bloch sum over the model's hopping table.
 
 Tolerance: 1e-9 * (1 + max|a| + max|b|) on sorted eigenvalues and matrices (DESIGN 2.3; a few dense LA steps).
+Degenerate bands: evaluate_k's 'energy' quantity reports the *average* energy of bands closer than degen_thresh
+(1e-4 eV, documented tabulator behaviour).  Reference eigenvalues closer than 2.5e-4 are therefore compared as a
+cluster (equal mean, reported values inside the cluster's range) - see band_mismatch(); no tie with the threshold
+is possible because the cluster gap is 2.5x the threshold.
+
+Findings on the unchanged tree (both are genuine, fixes in /verif/scratch_reports/C32_*.diff):
+  haldane:pair-differs                      models.Haldane_ptb overwrites its `delta` argument with 0.2 (DESIGN D8)
+  pythtb:exception:ValueError@...get_system_tb_py   a pythtb 2.0 model without any inter-cell hopping (only on-site
+                                            terms and R=0 hoppings: pythtb omits 'lattice_vector' for them) cannot be
+                                            imported: np.vstack of an empty (0,) R list with the (1,dim) zero vector
 """
 import numpy as np
 from hypothesis import strategies as st
@@ -35,8 +45,9 @@ ASSUMPTIONS = ["source-model eigenvalues (pythtb solve_ham / tbmodels eigenval) 
                "source model's bands' and are cross-checked against an own Bloch sum built from the case description",
                "tbmodels models always get a unit cell `uc` (the importer needs a lattice)",
                "a tbmodels model with an entirely empty Hamiltonian (no on-site, no hopping) is not generated",
-               "tolerance 1e-9 relative (DESIGN 2.3)"]
-MIN_NONTRIVIAL = {"quick": 60, "thorough": 1500}
+               "tolerance 1e-9 relative (DESIGN 2.3); eigenvalues closer than 2.5e-4 eV are compared as clusters because "
+               "the 'energy' tabulator averages bands closer than its degen_thresh=1e-4 eV"]
+MIN_NONTRIVIAL = {"quick": 100, "thorough": 3000}
 TOL = 1e-9
 
 PAULI = np.array([[[1, 0], [0, 1]], [[0, 1], [1, 0]], [[0, -1j], [1j, 0]], [[1, 0], [0, -1]]], dtype=complex)
@@ -463,8 +474,8 @@ def check_builder(case):
 
 
 SUBS = [
-    Sub("pythtb", ptb_case(), check_pythtb, quick=480, thorough=6400, budget_quick=150.0, budget_thorough=900.0),
-    Sub("tbmodels", tbm_case(), check_tbmodels, quick=320, thorough=4800, budget_quick=150.0, budget_thorough=900.0),
-    Sub("haldane", haldane_st, check_haldane, quick=80, thorough=1600, budget_quick=150.0, budget_thorough=900.0),
-    Sub("builders", builder_case(), check_builder, quick=160, thorough=1600, budget_quick=150.0, budget_thorough=900.0),
+    Sub("pythtb", ptb_case(), check_pythtb, quick=320, thorough=6400, budget_quick=150.0, budget_thorough=900.0),
+    Sub("tbmodels", tbm_case(), check_tbmodels, quick=200, thorough=4800, budget_quick=150.0, budget_thorough=900.0),
+    Sub("haldane", haldane_st, check_haldane, quick=48, thorough=1600, budget_quick=150.0, budget_thorough=900.0),
+    Sub("builders", builder_case(), check_builder, quick=96, thorough=1600, budget_quick=150.0, budget_thorough=900.0),
 ]
